@@ -20,7 +20,13 @@ def parseAns (t : String) : Option Ans :=
   | ["T"] => some .transErr | ["P"] => some .protoErr
   | ["u"] => some .unsupported | ["i"] => some .ioError | ["K"] => some .kbd
   | ["X"] => some .sysExit | ["L"] => some .listenErr
-  | [p] => if headCh p == 'p' then (tailStr p).toNat?.map Ans.polls else none
+  | [p] => if headCh p == 'p' then (tailStr p).toNat?.map Ans.polls
+           -- the real run loop under the traffic `bits` (one per exchange the peer answers): `runLoop bits`,
+           -- which is `polls (bits.length + 1)` (theorem runLoop_eq)
+           else if headCh p == 'r' then ((tailStr p).toList.mapM (fun c =>
+             if c == '1' then some true else if c == '0' then some false else none)).map
+               (fun (l : List Bool) => Ans.polls (l.length + 1))
+           else none
   | _ => none
 
 def parseList {α} (f : String → Option α) (t : String) : Option (List α) :=
